@@ -31,7 +31,7 @@ ASSUMPTIONS = [
 ]
 BOUNDS = {"quick": {"variables": "<=5", "terms": "<=2 a, <=3 g"}, "thorough": {"variables": "<=6", "terms": "<=2 a, <=3 g"}}
 OPTS = {"quick": {"tier_budget_s": 230, "max_paths": 1500, "job_budget_s": 60, "witness_rate": 0.3}, "thorough": {"tier_budget_s": 2400, "max_paths": 20000, "job_budget_s": 400}}
-OPS = ["compose", "quotient", "merge", "merge-source", "compose-source", "elim-chain", "parse-pair", "tl-simplify-shared", "nested-le", "contract-simplify", "refines", "rename", "rename-direct", "copy", "tl-simplify", "elim-refine", "elim-relax", "optimize", "bounds", "machine-dict", "string-dict", "parse", "contains", "is-empty", "tl-ops", "evaluate"]
+OPS = ["compose", "quotient", "merge", "merge-source", "compose-source", "elim-chain", "parse-pair", "tl-simplify-shared", "nested-le", "contract-simplify", "refines", "rename", "rename-direct", "rename-noop", "copy", "tl-simplify", "elim-refine", "elim-relax", "optimize", "bounds", "machine-dict", "string-dict", "parse", "contains", "is-empty", "tl-ops", "evaluate"]
 REACH = {"quick": ["returned", "raised"] + ["op:" + o for o in OPS]}
 
 
@@ -188,6 +188,12 @@ def run(ctx, job):
             src = (job["c1"]["in"] + job["c1"]["out"])[int(job["pick"] * len(job["c1"]["in"] + job["c1"]["out"]))]
             tgt = "renamed" if job["simplify"] else ([v for v in (job["c1"]["in"] if src in job["c1"]["in"] else job["c1"]["out"]) if v != src] or ["renamed"])[0]
             return c1.rename_variable(B.Var(src), B.Var(tgt))
+        if op == "rename-noop":
+            # renames that change nothing (source = target, or a source the contract does not have) still return a new object
+            v0 = (job["c1"]["in"] + job["c1"]["out"])[int(job["pick"] * len(job["c1"]["in"] + job["c1"]["out"]))]
+            if job["simplify"]:
+                return c1.rename_variable(B.Var(v0), B.Var(v0))
+            return c1.rename_variable(B.Var("absent"), B.Var("renamed"))
         if op == "copy":
             return c1.copy()
         if op == "tl-simplify":
